@@ -13,6 +13,13 @@ use std::io::BufRead;
 
 use super::{Deserializable, DeserializationError};
 
+// CONSTANTS
+// ================================================================================================
+
+/// Maximum number of elements for which [ByteReader::read_many] reserves memory before it has
+/// read them.
+const MAX_PREALLOCATED_ELEMENTS: usize = 1024;
+
 // BYTE READER TRAIT
 // ================================================================================================
 
@@ -191,7 +198,10 @@ pub trait ByteReader {
         Self: Sized,
         D: Deserializable,
     {
-        let mut result = Vec::with_capacity(num_elements);
+        // `num_elements` frequently comes from untrusted input (e.g., a length prefix), so we
+        // cannot reserve memory for it up front: a bogus count would abort the process with an
+        // allocation failure before the first missing element is noticed.
+        let mut result = Vec::with_capacity(core::cmp::min(num_elements, MAX_PREALLOCATED_ELEMENTS));
         for _ in 0..num_elements {
             let element = D::read_from(self)?;
             result.push(element)
